@@ -1,6 +1,7 @@
 package ptotal
 
 import (
+	"encoding/json"
 	"fmt"
 	"testing"
 
@@ -130,6 +131,14 @@ func runText(tg *textTarget) func(c TextCase) vrt.Verdict {
 	return func(c TextCase) vrt.Verdict {
 		if c.Sel < 0 {
 			return vrt.Discardf("negative selector")
+		}
+		if hangSeen.Load() {
+			// a hung goroutine is still alive: do not pile up more of them while rapid shrinks
+			return vrt.OK(false, "skipped-after-hang")
+		}
+		if js, err := json.Marshal(c); err == nil {
+			currentCase.Store(js)
+			currentCheck.Store("C16.text-" + tg.name)
 		}
 		r := tg.run(c.Sel%tg.nsel, c.Data)
 		if r.viol != nil {
